@@ -254,7 +254,9 @@ class Gen:
             if self.ok("lit.string.nonascii") and self.chance(0.2):
                 self.atom("lit.string.nonascii")
                 k = r.randint(0, len(chars))
-                chars = chars[:k] + self.pick(["é", "grün", "straße", "€€", "日本", "ñ", "🙂", "Ж"]) + chars[k:]
+                chars = chars[:k] + self.pick(["é", "grün", "straße", "€€", "日本", "ñ", "🙂", "Ж",
+                                                 # characters that look like blanks or like nothing: they are characters of the string
+                                                 "\u00a0", "10\u00a0kg", "\u202f", "\u3000", "\u00ad", "\u200b", "\u2003", "a\u00a0\u00a0b"]) + chars[k:]
             if self.ok("lit.string.otherquote") and self.chance(0.15):
                 # the other kind of quote mark is an ordinary character of a string, also first and last
                 self.atom("lit.string.otherquote")
